@@ -2,10 +2,108 @@
 
 NOT_APPLICABLE = {}
 
+_TB = ("Trusts the reference model (big-integer arithmetic in drfverif/rf.py), h5py for raw inspection and the system HDF5 "
+       "1.10.8 linked into the staged C library; values outside the enumerated alphabets are not covered.")
+
 CHECKS = {
     "C01": dict(
         level="model_checking", design_ref="DESIGN.md §2 C01",
-        technique="explicit-state exploration of bounded write-call sequences on the real writer/reader in lock-step with a big-integer reference model (plus ASan C-API replay)",
+        technique="explicit-state exploration of bounded write-call sequences on the real writer/reader in lock-step with a big-integer reference model (plus ASan/UBSan C-API replay)",
         text="All rf_write/rf_write_blocks sequences up to depth 3 (4 thorough) over a finite length/gap alphabet, times rate/cadence, storage mode, start position, every scalar type/byte order/complexity, and every file boundary in a window at realistic rates, are executed on the staged code and read back over edge-derived ranges; exhaustive within those bounds, nothing sampled.",
-        note="Trusts the reference model (50 lines of integer arithmetic), h5py for raw inspection and the system HDF5 1.10.8; values outside the enumerated alphabets are not covered."),
+        note=_TB),
+    "C02": dict(
+        level="fault_enumeration", design_ref="DESIGN.md §2 C02, §1.2",
+        technique="exhaustive crash-point enumeration: writer subprocess paused before every intercepted file-system operation (LD_PRELOAD shim), torn writes, real kills; tree inspected at every point",
+        text="For each history the tree is inspected at every point between two file-system operations of the writer (equivalent to a kill there, cross-checked with real kills), and after every half-written write; exhaustive over the operation stream of the histories explored.",
+        note="Crash = process death without page-cache loss; operation stream is that of the linked HDF5 1.10.8; histories are a fixed small set (3 layouts x modes)."),
+    "C03": dict(
+        level="exploration", design_ref="DESIGN.md §2 C03",
+        technique="exhaustive grid enumeration through the real C conversion functions (ctypes) against an exact integer model",
+        text="Complete small scope (n,d<=48/128, k<=4095/16383) plus the complete product of a magnitude-boundary grid, floor, ceil, round trip, monotonicity and the Python wrapper; every grid point is evaluated.",
+        note="Between grid points at large magnitude nothing is claimed; the model is three lines of Python integer arithmetic."),
+    "C04": dict(
+        level="model_checking", design_ref="DESIGN.md §2 C04",
+        technique="explicit-state exploration of write sequences with an on-disk layout oracle, plus exhaustive grid sweep of the real digital_rf_get_subdir_file via ctypes",
+        text="Every file produced by every explored history is compared (name, subdirectory, stored index set, capacity) with the exact model; the naming function itself is swept over complete small scopes and over every index within +-2 samples of each file boundary in windows of thousands of files at realistic rates.",
+        note=_TB),
+    "C05": dict(
+        level="model_checking", design_ref="DESIGN.md §2 C05",
+        technique="explicit-state exploration of call histories with invalid calls inserted at every position; byte-level directory digest + differential comparison against the history without the rejected calls; ASan/UBSan C-API replay",
+        text="Twelve kinds of invalid call are inserted at every position of every base history (depth<=2/3); rejection, unchanged files/getters and equivalence with the base history are checked on each; the same through the C API under sanitizers.",
+        note=_TB + " Zero-length writes and the private extension module are outside the claim."),
+    "C06": dict(
+        level="model_checking", design_ref="DESIGN.md §2 C06",
+        technique="explicit-state exploration (shared RF universes) with raw-h5py inspection of every produced file and regeneration of the properties file from every single file",
+        text="Index rules, duplicated attributes, session attributes and regeneration are checked on every file of every explored history (layout, type and two-session universes).",
+        note=_TB),
+    "C07": dict(
+        level="model_checking", design_ref="DESIGN.md §2 C07",
+        technique="complete enumeration of element type x byte order x complexity x subchannels x gap layout x storage mode on the real writer, raw decoding of every slot",
+        text="The product is finite and fully enumerated; unwritten slots are decoded in the file's own byte order; chunked-continuous output is compared byte-for-byte with gapped mode.",
+        note=_TB),
+    "C08": dict(
+        level="model_checking", design_ref="DESIGN.md §2 C08",
+        technique="metamorphic + model comparison of all reader queries over all (start,end) pairs of the edge set of each channel of a fixed sub-universe",
+        text="For every channel all (s,e) pairs over its edge set, all cached split triples, every subchannel, vector reads for every edge start x length set, and per-sample properties are evaluated.",
+        note=_TB + " Edge sets are capped at 28 edges per channel."),
+    "C09": dict(
+        level="model_checking", design_ref="DESIGN.md §2 C09",
+        technique="exhaustive schedule enumeration at file-system-operation granularity: reader passes at every (creation point, observation point) pair; bound 1: reader pre-empted at each of its own FS calls while the writer advances",
+        text="Deviation bound 0 complete for every pair (c,i); bound 1 complete for every (i,j,m) with m in {1 op, next rename, next-but-one rename, end} (every 4th i in quick).",
+        note="Free-running processes are not separately sampled; decided at operation granularity on 3 histories (9 thorough); rests on C02's invariant that finalized bytes never change."),
+    "C10": dict(
+        level="fault_enumeration", design_ref="DESIGN.md §2 C10",
+        technique="exhaustive single-fault schedule enumeration (every FS operation x {ENOSPC,EIO} x {once,persistent}) of a writer subprocess under the LD_PRELOAD shim, observed after every rename and after process exit",
+        text="Every single-fault schedule of each history is one real execution; thorough adds all pairs of faults for one history (bound 2).",
+        note="Faults are injected at libc level in the operation stream of the linked HDF5 1.10.8; unlink is not faulted."),
+    "C11": dict(
+        level="model_checking", design_ref="DESIGN.md §2 C11",
+        technique="explicit-state exploration of all session sequences (directory x start position x write pattern / parameter mismatch) up to depth 3/4 with per-step hashes of finalized files and a union model",
+        text="All session sequences of the bounded alphabet are executed on the staged writer; refused sessions/writes, unchanged finalized files and the multi-directory union read are checked on each.",
+        note=_TB),
+    "C12": dict(
+        level="model_checking", design_ref="DESIGN.md §2 C12",
+        technique="explicit-state exploration of metadata write histories (index subsets x write forms x duplicates) with all range/method/column queries against a dict model",
+        text="Every subset of <=3/4 candidate indices per configuration x 4-6 write forms is written and every (s,e) over the edge set x fill method is read back with full value comparison.",
+        note="Trusts the dict model and the value canonicalisation (numpy <-> Python, None == '')."),
+    "C13": dict(
+        level="exploration", design_ref="DESIGN.md §2 C13",
+        technique="exhaustive grid: every file boundary in windows of consecutive files x 13 rates x 4 cadences x 2 epochs written through the real writer, located on disk and read back",
+        text="Every boundary sample and its neighbours in the windows is written, located and queried.",
+        note="Placement model T=(k*d//n)//fc*fc in Python integers."),
+    "C14": dict(
+        level="exploration", design_ref="DESIGN.md §2 C14",
+        technique="exhaustive enumeration of a bounded tree grammar x option combinations x time windows against a set-algebra oracle, incl. vanishing-subdirectory faults",
+        text="Every tree of the grammar is listed under the full flag product and all window pairs over its critical times; each listing is compared with the oracle.",
+        note="The forward-fill extra is required only in pure metadata listings without a file exactly at start; trees are time-consistent."),
+    "C15": dict(
+        level="exploration", design_ref="DESIGN.md §2 C15",
+        technique="complete product of event kinds x path grammar x include flags x windows x match_time dispatched to the real handler, oracle = the real lsdrf on a tree containing every path",
+        text="The bounded grammar is enumerated completely, as the property demands.",
+        note="Moves between two grammar-matching names of which only one is in the window are not judged."),
+    "C16": dict(
+        level="model_checking", design_ref="DESIGN.md §2 C16",
+        technique="explicit-state BFS with canonical states over the real ringbuffer handler on real files; invariants on every transition; restored states cross-checked by full replays",
+        text="BFS from the empty ringbuffer under 12/35 limit configurations to a state/depth cap (reported); every transition checks deletion legitimacy, order and accounting.",
+        note="Equal canonical states have equal futures (no other mutable handler state); capped runs are reported as not exhaustive with the cap."),
+    "C17": dict(
+        level="model_checking", design_ref="DESIGN.md §2 C17",
+        technique="exhaustive permutation of event histories x handler dispatch orders on the real mirror handlers with intercepted FS operations; invariants at every operation boundary and simulated crash at every boundary in move mode",
+        text="All permutations of the creation events (x perturbations x handler orders) are executed; crash points are enumerated over every boundary of selected histories.",
+        note="One recording shape; crash = exception at an operation boundary; source and destination on one file system."),
+    "C18": dict(
+        level="exploration", design_ref="DESIGN.md §2 C18",
+        technique="exhaustive grid of trees x commands x option combinations run through drf_command.main, oracle = real lsdrf evaluated before the command + byte/inode comparison",
+        text="Every (tree, command, option set, source form) of the bounded grid is executed.",
+        note="Placeholder files stand in for HDF5 except in the real-recording cases."),
+    "C19": dict(
+        level="model_checking", design_ref="DESIGN.md §2 C19",
+        technique="explicit-state exploration of call histories (incl. rejected calls) with getters compared to the model after every call",
+        text="All histories of the C01 layout universe in all five storage modes and the C05 histories are executed; counters and last file/dir are compared after every call and after close.",
+        note=_TB),
+    "C20": dict(
+        level="model_checking", design_ref="DESIGN.md §2 C20",
+        technique="exhaustive enumeration of call-granular interleavings of metadata/RF writes with reader creation; full query pass on every live and fresh reader after every call with tree snapshots",
+        text="All call sequences up to length 4/6 over the 6-operation alphabet are executed.",
+        note="Readers use default constructor arguments."),
 }
